@@ -2,79 +2,93 @@
    Statements only; every proof is [exact lemma].
 
    exec  (Exec/CallTree.v) : the machine as the code has it — a private store layer is pushed for a callee only when
-                             the calling contract has a handler in state eTry and the effective flags allow writes
-                             or notifications; commit / drop + notification truncation in the unload callback
-                             (commit := no exception pending); copy-on-write native cache per layer; the
-                             transaction's layer is persisted iff the VM halted.
-                             policy Lazy  = ContractHasTryBlock as it is;
-                             policy Eager = candidate repair (a handler in state eCatch with a finally block counts).
+                             the calling contract has a live handler and the effective flags allow writes or
+                             notifications; commit / drop + notification truncation in the unload callback
+                             (commit := no exception pending); copy-on-write native caches (Policy, NEO) per layer;
+                             GAS and NEO transfers with payment callbacks, vote bookkeeping and GAS claims; the
+                             transaction's layer is persisted iff the VM halted; one VM reused for a whole block.
+                             policy Eager = ContractHasTryBlock as it is now (F13 repaired);
+                             policy Lazy  = as it was (handlers in state eTry only).
    iexec (Exec/Spec.v)     : ideal transactional frames on one flat state.
-   guard pol p             : g2 p (no finally block contains a contract call) and, for Lazy, g1 p (a catch block that
-                             is followed by a finally block makes no un-layered call).  Outside the guards the
-                             statements are FALSE for the code as it is: C04_rollback_exact_refuted_*. *)
+   The guard of the *_partial theorems is SEMANTIC: the ghost flag [bad] of the machine stayed down, i.e. no layered
+   call frame and no payment callback RETURNED while an exception was pending (clean _ = true for a transaction).
+   Contract calls inside finally blocks are therefore covered whenever the block is entered by normal completion,
+   and also when it is entered by an exception as long as the callee is not layered.  Finding F40 is exactly the
+   excluded situation (C04_rollback_exact_refuted_pending).  [guard pol p] adds a syntactic condition for the Lazy
+   policy only (g1: a catch block followed by a finally block makes no un-layered call — finding F13, repaired);
+   for Eager it is [true]. *)
 From NG Require Import Common.Tactics Exec.CallTree Exec.Spec Exec.CallTreeFrame Exec.CallTreeProofs Exec.CallTreeWitness Exec.BlockProofs.
 Open Scope N_scope.
 
-(* tx_atomic, fault half — for ALL call trees, both policies, any base state and fee: a transaction that does not halt
-   (fault, or a throw nobody catches) leaves the block-level state exactly as it was after the fee deduction *)
-Theorem C04_tx_atomic_fault : forall pol base fee p,
-  halted (apply_tx pol base fee p) = false -> after (apply_tx pol base fee p) = charge fee base.
+(* tx_atomic, fault half — for ALL call trees, both policies, any base state, sender and fee: a transaction that does
+   not halt (fault, or a throw nobody catches) leaves the block-level state exactly as it was after the fee deduction *)
+Theorem C04_tx_atomic_fault : forall pol base sender fee p,
+  halted (apply_tx pol base sender fee p) = false -> after (apply_tx pol base sender fee p) = charge sender fee base.
 Proof. exact tx_atomic_fault. Qed.
 Print Assumptions C04_tx_atomic_fault.
 
-(* tx_atomic, halt half: a transaction that halts has exactly the effects of the ideal semantics applied *)
-Theorem C04_tx_atomic_halt_partial : forall pol base fee p,
-  guard pol p = true -> halted (apply_tx pol base fee p) = true ->
-  let i := irun_tx (charge fee base) p in
-  ihalted i = true /\ lst (after (apply_tx pol base fee p)) = ist (iafter i) /\
-  dflt (lnc (after (apply_tx pol base fee p))) = ifee (iafter i) /\
-  events (apply_tx pol base fee p) = intf (iafter i).
+(* tx_atomic, halt half: a transaction that halts has exactly the effects of the ideal semantics applied:
+   storage of every namespace (contract storage, GAS and NEO balances, candidate votes, voters count, pending claims),
+   Policy value, NEO votesChanged flag, notification list *)
+Theorem C04_tx_atomic_halt_partial : forall pol base sender fee p,
+  guard pol p = true -> clean (apply_tx pol base sender fee p) = true -> halted (apply_tx pol base sender fee p) = true ->
+  let i := irun_tx (charge sender fee base) p in
+  ihalted i = true /\ lst (after (apply_tx pol base sender fee p)) = ist (iafter i) /\
+  dflt (lnc (after (apply_tx pol base sender fee p))) = ifee (iafter i) /\
+  dflt (lvc (after (apply_tx pol base sender fee p))) = ivc (iafter i) /\
+  events (apply_tx pol base sender fee p) = intf (iafter i).
 Proof. exact tx_atomic_halt. Qed.
 Print Assumptions C04_tx_atomic_halt_partial.
 
 (* rollback_exact: full statement, what is proved, and why the guard cannot be dropped *)
 Definition C04_rollback_exact_statement : Prop :=
-  forall base p, tx_agree (run_tx Lazy base p) (irun_tx base p).
+  forall base p, tx_agree (run_tx Eager base p) (irun_tx base p).
 
 Theorem C04_rollback_exact_partial : forall pol base p,
-  guard pol p = true -> tx_agree (run_tx pol base p) (irun_tx base p).
+  guard pol p = true -> clean (run_tx pol base p) = true -> tx_agree (run_tx pol base p) (irun_tx base p).
 Proof. exact run_tx_exact. Qed.
 Print Assumptions C04_rollback_exact_partial.
 
-(* W1: an un-layered callee called from a catch block throws; the finally block of the same try runs while the
-   callee's token movement is still in the caller's layer, and the outcome of the transaction changes (FAULT instead
-   of HALT).  With the Eager policy the machine agrees with the ideal semantics on W1. *)
-Theorem C04_rollback_exact_refuted_lazy : ~ C04_rollback_exact_statement.
+(* the syntactic condition of the first round implies the semantic one: if no finally block contains a contract
+   call, no frame ever returns while an exception is pending *)
+Theorem C04_no_call_in_finally_is_clean : forall pol base p, g2 p = true -> clean (run_tx pol base p) = true.
+Proof. exact g2_run_tx_clean. Qed.
+Print Assumptions C04_no_call_in_finally_is_clean.
+
+(* W2 (F40): a callee called from a finally block that was entered by an exception is dropped on normal return when
+   it was layered (commit := uncaughtException == nil); the ghost flag is up; under either policy *)
+Theorem C04_rollback_exact_refuted_pending : ~ C04_rollback_exact_statement.
+Proof. exact (rollback_exact_refuted_pending Eager). Qed.
+Print Assumptions C04_rollback_exact_refuted_pending.
+
+(* W1 (F13, repaired in /repo): with the Lazy policy an un-layered callee called from a catch block throws; the finally
+   block of the same try runs while the callee's token movement is still in the caller's layer (FAULT instead of HALT).
+   With the Eager policy the machine agrees with the ideal semantics on W1 and its run is clean. *)
+Theorem C04_rollback_exact_refuted_lazy : ~ rollback_exact_statement Lazy.
 Proof. exact rollback_exact_refuted_lazy. Qed.
 Print Assumptions C04_rollback_exact_refuted_lazy.
 
 Theorem C04_w1_repaired_by_eager :
   halted (run_tx Lazy base0 w1) = false /\ ihalted (irun_tx base0 w1) = true /\
   lookup (2, 0) (ist (iafter (irun_tx base0 w1))) = Some 7 /\
-  tx_agree (run_tx Eager base0 w1) (irun_tx base0 w1).
+  tx_agree (run_tx Eager base0 w1) (irun_tx base0 w1) /\ clean (run_tx Eager base0 w1) = true.
 Proof. exact w1_lazy_faults_ideal_halts. Qed.
 Print Assumptions C04_w1_repaired_by_eager.
 
-(* W2: a callee called from a finally block that was entered by an exception is dropped on normal return when it was
-   layered (commit := uncaughtException == nil), under either policy *)
-Theorem C04_rollback_exact_refuted_pending : forall pol, ~ rollback_exact_statement pol.
-Proof. exact rollback_exact_refuted_pending. Qed.
-Print Assumptions C04_rollback_exact_refuted_pending.
-
-(* the simulation behind rollback_exact, for every contract invocation, not only whole transactions:
-   related flat views stay related on normal return, and on a throw whenever the program runs inside a try body or
-   makes no call outside one *)
+(* the simulation behind rollback_exact, for every contract invocation and any pending-exception state at its start:
+   if the ghost flag is down at the end, related flat views stay related on normal return, and on a throw whenever the
+   program runs inside a try body or makes no call outside one; outcomes agree *)
 Theorem C04_simulation : forall pol p, guard pol p = true ->
   forall cid fl it, simP (it || bare_free p) (exec pol p cid fl it) (iexec p cid fl).
 Proof. exact exec_sim. Qed.
 Print Assumptions C04_simulation.
 
 (* the key lemma in the property's wording: a call from inside a try body that throws leaves the caller's view of
-   storage, native setting and notifications exactly as it was at the call — whatever its layered and un-layered
-   sub-callees did *)
+   storage, native settings and notifications exactly as it was at the call — whatever its layered and un-layered
+   sub-callees did (token movements, votes, claims, cache flags included) *)
 Theorem C04_failed_call_no_trace_partial : forall pol c f body cid fl s s',
-  guard pol body = true -> ne s -> exc s = false ->
-  exec pol (Call c f body) cid fl true s = Thrown s' ->
+  guard pol body = true -> ne s ->
+  exec pol (Call c f body) cid fl true s = Thrown s' -> bad s' = false ->
   abs s' = rollback (abs s).
 Proof. exact failed_call_no_trace. Qed.
 Print Assumptions C04_failed_call_no_trace_partial.
@@ -85,6 +99,8 @@ Theorem C04_before_after_kept_partial : forall pol pre post c f body cid fl it s
   guard pol (Seq pre (Seq (caught c f body) post)) = true ->
   ne s -> exc s = false ->
   (forall s1, exec pol pre cid fl it s = Normal s1 -> exists s2, exec pol (Call c f body) cid fl true s1 = Thrown s2) ->
+  bad (rstate (exec pol (Seq pre (Seq (caught c f body) post)) cid fl it s)) = false ->
+  bad (rstate (exec pol (Seq pre post) cid fl it s)) = false ->
   obs_eq (exec pol (Seq pre (Seq (caught c f body) post)) cid fl it s) (exec pol (Seq pre post) cid fl it s).
 Proof. exact caught_call_no_trace. Qed.
 Print Assumptions C04_before_after_kept_partial.
@@ -105,11 +121,23 @@ Print Assumptions C04_readonly_callee_changes_nothing.
 
 (* "in any block position": storeBlock runs the transactions of a block on one reused VM.  With VM.Reset between
    transactions the block is the fold of single transactions, each alone on what the halted ones before it left —
-   whatever the registers held when the previous transaction ended (a fault does not unload contexts) *)
+   whatever the registers held when the previous transaction ended; every fee is burnt from its own sender first *)
 Theorem C04_block_is_fold : forall pol base txs,
-  apply_block pol base txs = seq_txs pol (fold_left (fun b t => charge (fst t) b) txs base) (map snd txs).
+  apply_block pol base txs = seq_txs pol (charge_all txs base) (map snd txs).
 Proof. exact apply_block_is_fold. Qed.
 Print Assumptions C04_block_is_fold.
+
+(* per-transaction fee accounting with several senders: each sender loses exactly the sum of the fees of its own
+   transactions, nothing else is touched, before anything runs and whatever the transactions then do *)
+Theorem C04_block_fees_by_sender : forall txs a base,
+  fees_of a txs <= dflt (lookup (GASNS, a) (lst base)) ->
+  dflt (lookup (GASNS, a) (lst (charge_all txs base))) = dflt (lookup (GASNS, a) (lst base)) - fees_of a txs.
+Proof. exact charge_all_sender. Qed.
+Print Assumptions C04_block_fees_by_sender.
+Theorem C04_block_fees_touch_nothing_else : forall txs k base,
+  (forall a, k <> (GASNS, a)) -> lookup k (lst (charge_all txs base)) = lookup k (lst base).
+Proof. exact charge_all_others. Qed.
+Print Assumptions C04_block_fees_touch_nothing_else.
 
 (* a transaction that does not halt, at ANY position of a block, is as if it were not there (fee aside): same final
    state, same results of every other transaction; ALL call trees, no guard *)
@@ -121,8 +149,48 @@ Theorem C04_block_position_independent : forall pol ps1 base p ps2,
 Proof. exact seq_txs_skip_faulted. Qed.
 Print Assumptions C04_block_position_independent.
 
-(* what the reset is for: without it an exception left pending by a faulted transaction makes a later, halting
-   transaction drop its layered callee *)
+(* non-vacuity *)
+Example C04_example_guarded_tree :
+  guard Lazy ex1 = true /\ guard Eager ex1 = true /\ g2 ex1 = false /\
+  clean (run_tx Lazy base0 ex1) = true /\ clean (run_tx Eager base0 ex1) = true.
+Proof. exact ex1_guarded. Qed.
+Example C04_example_rollback :
+  let m := run_tx Lazy base0 ex1 in
+  halted m = true /\ events m = [EvN 0 9; EvV 0 0 (Some 1); EvP 0 1000] /\
+  lookup (0, 0) (lst (after m)) = Some 1 /\ lookup (0, 1) (lst (after m)) = Some 3 /\
+  lookup (1, 0) (lst (after m)) = None /\ lookup (2, 0) (lst (after m)) = None /\ lookup (2, 5) (lst (after m)) = Some 5 /\
+  lookup (GASNS, 2) (lst (after m)) = Some 1000 /\ lookup (GASNS, 3) (lst (after m)) = None /\
+  lnc (after m) = Some 1000.
+Proof. exact ex1_runs. Qed.
+Example C04_example_neo_rolled_back :
+  let m := run_tx Eager base0 (ex_neo true) in
+  halted m = true /\ clean m = true /\ events m = [EvN 1 1; EvN 1 2] /\
+  lookup (kNeo 0) (lst (after m)) = Some 500 /\ lookup (kNeo 1) (lst (after m)) = Some 300 /\
+  lookup kCand (lst (after m)) = Some 500 /\ lookup kVoters (lst (after m)) = Some 500 /\
+  lookup (kClaim 0) (lst (after m)) = Some 7 /\ lookup (GASNS, 0) (lst (after m)) = Some 1000 /\
+  lookup (1, 2) (lst (after m)) = None /\ lvc (after m) = Some 0.
+Proof. exact ex_neo_rolled_back. Qed.
+Example C04_example_neo_committed :
+  let m := run_tx Eager base0 (ex_neo false) in
+  halted m = true /\ clean m = true /\
+  events m = [EvTN 0 1 200; EvT NIL 0 7; EvT NIL 1 4; EvN 1 2] /\
+  lookup (kNeo 0) (lst (after m)) = Some 300 /\ lookup (kNeo 1) (lst (after m)) = Some 500 /\
+  lookup kCand (lst (after m)) = Some 300 /\ lookup kVoters (lst (after m)) = Some 300 /\
+  lookup (kClaim 0) (lst (after m)) = None /\ lookup (GASNS, 0) (lst (after m)) = Some 1007 /\
+  lookup (GASNS, 1) (lst (after m)) = Some 1004 /\ lookup (1, 2) (lst (after m)) = Some 2 /\ lvc (after m) = Some 1.
+Proof. exact ex_neo_committed. Qed.
+Example C04_example_fault :
+  halted (apply_tx Lazy base0 5 3 ex2) = false /\ after (apply_tx Lazy base0 5 3 ex2) = charge 5 3 base0.
+Proof. exact ex2_faults. Qed.
+Example C04_example_caught :
+  exists s2, exec Lazy (Call 1 15 (Seq (Put 0 2) Throw)) 0 15 true (start base0) = Thrown s2 /\ bad s2 = false.
+Proof. exact ex3_caught. Qed.
+Example C04_example_pending_exception : forall pol,
+  halted (run_tx pol base0 w2) = true /\ ihalted (irun_tx base0 w2) = true /\
+  clean (run_tx pol base0 w2) = false /\
+  lookup (1, 3) (lst (after (run_tx pol base0 w2))) = None /\
+  lookup (1, 3) (ist (iafter (irun_tx base0 w2))) = Some 4.
+Proof. exact w2_pending_exception_drops_callee. Qed.
 Example C04_example_no_reset_position_matters :
   let '(st, os) := run_txs Lazy false (base0, false) [pend; later] in
   let '(st', os') := run_txs Lazy true (base0, false) [pend; later] in
@@ -130,29 +198,6 @@ Example C04_example_no_reset_position_matters :
   lookup (1, 0) (lst (fst st)) = None /\ lookup (1, 0) (lst (fst st')) = Some 5.
 Proof. exact no_reset_position_matters. Qed.
 Example C04_example_block :
-  apply_block Lazy base0 [(3, pend); (3, later)] = seq_txs Lazy (charge 3 (charge 3 base0)) [pend; later] /\
-  lookup (1, 0) (lst (fst (apply_block Lazy base0 [(3, pend); (3, later)]))) = Some 5.
+  apply_block Lazy base0 [(5, 3, pend); (6, 4, later)] = seq_txs Lazy (charge 6 4 (charge 5 3 base0)) [pend; later] /\
+  lookup (1, 0) (lst (fst (apply_block Lazy base0 [(5, 3, pend); (6, 4, later)]))) = Some 5.
 Proof. exact block_example. Qed.
-
-(* non-vacuity *)
-Example C04_example_guarded_tree : guard Lazy ex1 = true /\ guard Eager ex1 = true.
-Proof. exact ex1_guarded. Qed.
-Example C04_example_rollback :
-  let m := run_tx Lazy base0 ex1 in
-  halted m = true /\ events m = [EvN 0 9; EvV 0 0 (Some 1); EvP 0 1000] /\
-  lookup (0, 0) (lst (after m)) = Some 1 /\ lookup (0, 1) (lst (after m)) = Some 3 /\
-  lookup (1, 0) (lst (after m)) = None /\ lookup (2, 0) (lst (after m)) = None /\
-  lookup (GASNS, 2) (lst (after m)) = Some 1000 /\ lookup (GASNS, 3) (lst (after m)) = None /\
-  lnc (after m) = Some 1000.
-Proof. exact ex1_runs. Qed.
-Example C04_example_fault :
-  halted (apply_tx Lazy base0 3 ex2) = false /\ after (apply_tx Lazy base0 3 ex2) = charge 3 base0.
-Proof. exact ex2_faults. Qed.
-Example C04_example_caught :
-  exists s2, exec Lazy (Call 1 15 (Seq (Put 0 2) Throw)) 0 15 true (start base0) = Thrown s2.
-Proof. exact ex3_caught. Qed.
-Example C04_example_pending_exception : forall pol,
-  halted (run_tx pol base0 w2) = true /\ ihalted (irun_tx base0 w2) = true /\
-  lookup (1, 3) (lst (after (run_tx pol base0 w2))) = None /\
-  lookup (1, 3) (ist (iafter (irun_tx base0 w2))) = Some 4.
-Proof. exact w2_pending_exception_drops_callee. Qed.
